@@ -273,16 +273,63 @@ open RtcModel.LatchHistory in
 `commit_is_rule_winner`) yields exactly the documented summary: one row per source in order of first
 appearance, with the numerically lowest sequence number and timestamp, the latest sequence number,
 the (capped) number of packets, the length of the trailing `+1 mod 2^16` run and the marker flag. -/
-theorem table_is_summary_of_history (h : List Pkt) : observeAll h = tableOf h :=
-  observeAll_eq_tableOf h
+theorem table_is_summary_of_history (h : List Pkt) : observeAll h = tableOf h := by
+  induction h with
+  | nil => simp [observeAll, tableOf, srcs]
+  | cons x h ih =>
+    have hf : ∀ b, ((fun a => summary a (ofSrc h a)) b).addr = b := fun b => rfl
+    simp only [observeAll, ih, tableOf]
+    by_cases hm : x.addr ∈ srcs h
+    · rw [observe_map_mem _ _ hf _ _ _ _ (srcs_nodup h) hm]
+      simp only [srcs, hm, ↓reduceIte]
+      apply List.map_congr_left
+      intro b hb
+      rw [ofSrc_cons]
+      by_cases he : b = x.addr
+      · subst he
+        simp only [↓reduceIte]
+        have hne := ofSrc_ne_nil h x.addr hb
+        cases hl : ofSrc h x.addr with
+        | nil => exact absurd hl hne
+        | cons y rest => rw [summary_cons]
+      · have he' : ¬ x.addr = b := fun h' => he h'.symm
+        simp [he, he']
+    · rw [observe_map_not_mem _ _ hf _ _ _ _ hm]
+      simp only [srcs, hm, ↓reduceIte, List.map_append, List.map_cons, List.map_nil]
+      congr 1
+      · apply List.map_congr_left
+        intro b hb
+        rw [ofSrc_cons]
+        have : x.addr ≠ b := fun he => hm (he ▸ hb)
+        simp [this]
+      · rw [ofSrc_cons]; simp [ofSrc_nil h x.addr hm, summary_single]
 
 open RtcModel.LatchHistory in
 /-- the numeric reading of rule 2: `consecutive >= 2` holds exactly when the source's latest THREE
 packets are in sequence (the comment's prose says "two sequential packets"; the condition it gives,
 and the code, need three) -/
 theorem run_two_means_three_in_sequence (l : List Pkt) :
-    runLen l ≥ 2 ↔ ∃ x y z rest, l = x :: y :: z :: rest ∧ x.seq = wrapInc y.seq ∧ y.seq = wrapInc z.seq :=
-  runLen_ge_two l
+    runLen l ≥ 2 ↔ ∃ x y z rest, l = x :: y :: z :: rest ∧ x.seq = wrapInc y.seq ∧ y.seq = wrapInc z.seq := by
+  match l with
+  | [] => simp [runLen]
+  | [x] => simp [runLen]
+  | [x, y] => simp [runLen, satInc, consecMax_eq]; split <;> omega
+  | x :: y :: z :: rest =>
+    simp only [runLen, satInc, consecMax_eq]
+    constructor
+    · intro h
+      refine ⟨x, y, z, rest, rfl, ?_, ?_⟩
+      · by_cases h1 : x.seq = wrapInc y.seq
+        · exact h1
+        · simp [h1] at h
+      · by_cases h2 : y.seq = wrapInc z.seq
+        · exact h2
+        · by_cases h1 : x.seq = wrapInc y.seq <;> simp [h1, h2] at h
+    · rintro ⟨x', y', z', rest', he, h1, h2⟩
+      simp at he
+      obtain ⟨rfl, rfl, rfl, rfl⟩ := he
+      simp only [h1, h2, ↓reduceIte]
+      split <;> split <;> omega
 
 open RtcModel.LatchHistory in
 /-- non-vacuity / reading check: the audit's history `B1 A100 B10 A101 B20 A102` (newest first below)
@@ -731,7 +778,10 @@ each of the three latch API calls (`reset_latch`, signaling retarget, selected-p
 EVERY schedule that lets both threads finish, the final state is the state reached by running the
 two calls one after the other in one of the two orders — so every sequential theorem above
 (stickiness, legitimacy of moves, commit) also holds when the API call comes from another task
-while a packet is being received. (False before the lock-discipline `fix:`; the failing schedules
+while a packet is being received. MUTUAL EXCLUSION of the two critical sections is an ASSUMPTION built
+into `LatchRace.stepR/stepA` (a thread at `before-lock` does not move while the other section is
+open), not something this theorem proves about the code; on the real code it is OBSERVED by the race
+executor (`try_lock` probe: `race:critical-section-without-the-mutex`, `race:mutual-exclusion-violated`). (False before the lock-discipline `fix:`; the failing schedules
 were executed on the real code, see `known_findings.d/C18.json`.) -/
 theorem latch_api_serializable (s0 : St) (a : Addr) (ssrc seq ts : Nat) (m : Bool) (api : Op) (A : Crit)
     (hA : apiCrit api = some A) (hon : s0.latchOn = true) (sched : List Bool)
